@@ -27,8 +27,12 @@ type CaseRun struct {
 	Rejects  int64
 }
 
-func runProg(cfg CheckCfg, prog *Prog) *CaseRun {
+func runProg(cfg CheckCfg, prog *Prog) *CaseRun { return runProgHook(cfg, prog, nil) }
+
+// runProgHook: onDone is called with every invocation once its record is complete (after the library has run its cleanups).
+func runProgHook(cfg CheckCfg, prog *Prog, onDone func(*Invocation)) *CaseRun {
 	x := NewInterp(prog)
+	x.OnDone = onDone
 	obs := RunCheck(cfg, x.Prop)
 	x.Finish()
 	r := &CaseRun{Cfg: cfg, X: x, Obs: obs, Rep: ParseReport(obs), FirstBad: -1, Rejects: atomic.LoadInt64(&x.Env.Rejects)}
